@@ -285,9 +285,11 @@ CHECK_DEADLOCK FALSE
             c = base.Client(("h", 1))
             c.sock = sock
             try:
-                return repr(call(c))
+                r = repr(call(c))
             except Exception as e:   # noqa
                 return "EXC:" + type(e).__name__ + ":" + str(e)[:40]
+            # the call consumes its reply, all of it, however it was split: what it leaves unread belongs to the next call
+            return r + " |unread=%d" % len(sock.undelivered())
         ref = run([reply])
         ncalls += 1
         n = len(reply)
